@@ -135,6 +135,7 @@ let fuel = nat_of_int 20000
 
 (* ---------- concurrency (Model/Conc.v) ---------- *)
 let conc : config option ref = ref None
+let qconc : qconfig option ref = ref None
 
 let obj_of_string = function
   | "vis" -> OVis | "hid" -> OHid | "cnt" -> OCnt | "sadd" -> OSAdded | "srem" -> OSRemoved
@@ -219,6 +220,8 @@ let ev_of_fields = function
   | ["PUSH"; k] -> EPush (oid_of_string k)
   | ["POP"; r] -> EPop (ooid_of_string r)
   | ["ITER"; n] -> EIter (n_of_string n)
+  | ["LEN"; n] -> EIter (n_of_string n)
+  | ["EMPTY"; n] -> EIter (n_of_string n)
   | l -> failwith ("bad event " ^ String.concat "~" l)
 
 let string_of_ev = function
@@ -419,6 +422,44 @@ let handle line =
           let exp = (match cstep mf c' tid with
               | Some (_, e') -> string_of_ev e'
               | None -> "thread-cannot-move") in
+          Printf.sprintf "= rejected pos=%d thread=%d got=%s expected=%s" p (to_int tid) (string_of_ev e) exp))
+  | ["QCTHREADS"; ts] ->
+    let qcall_of_string s = (match String.split_on_char '~' s with
+        | ["QPUSH"; o] -> QCPush (order_of_string o) | ["QPOP"] -> QCPop
+        | ["QREMOVE"; k] -> QCRemove (oid_of_string k) | ["QFIND"; k] -> QCFind (oid_of_string k)
+        | ["QLEN"] -> QCLen | ["QEMPTY"] -> QCEmpty | ["QVEC"] -> QCVec
+        | _ -> failwith ("bad qcall " ^ s)) in
+    let progs = List.map (fun t -> if t = "" then [] else List.map qcall_of_string (String.split_on_char ';' t))
+        (String.split_on_char '#' ts) in
+    qconc := Some { qc_sh = qshared_of_queue ses.q; qc_threads = List.map qthread_init progs };
+    "= ok"
+  | "QCTRACE" :: toks ->
+    (match !qconc with
+     | None -> "= error no config"
+     | Some c ->
+       let tr = List.filter_map (fun tok ->
+           if tok = "" then None else
+             match String.split_on_char '~' tok with
+             | tid :: fields -> Some (nat_of_int (int_of_string tid), ev_of_fields fields)
+             | [] -> None) toks in
+       let (c', bad) = qaccept tr c O in
+       qconc := Some c';
+       ses.q <- queue_of_qshared c'.qc_sh;
+       let string_of_qret = function
+         | QRetUnit -> "unit" | QRetOrd o -> "ord:" ^ string_of_oorder o | QRetNum n -> "num:" ^ string_of_n n
+         | QRetBool b -> "bool:" ^ (if b then "1" else "0") | QRetVec l -> "vec:" ^ list_str string_of_order l in
+       (match bad with
+        | None ->
+          let rets = String.concat "#" (List.map (fun t ->
+              String.concat "|" (List.map string_of_qret (t.qt_rets @ (match t.qt_pc with QDone r when t.qt_rets <> [] || true -> [r] | _ -> []))))
+              c'.qc_threads) in
+          Printf.sprintf "= accepted quiescent=%d rets=%s map=%s tk=%s" (if qquiescent c' then 1 else 0) rets
+            (list_str string_of_order c'.qc_sh.qs_map) (list_str string_of_oid c'.qc_sh.qs_tk)
+        | Some pos ->
+          let rec to_int = function O -> 0 | S n -> 1 + to_int n in
+          let p = to_int pos in
+          let (tid, e) = List.nth tr p in
+          let exp = (match qcstep c' tid with Some (_, e') -> string_of_ev e' | None -> "thread-cannot-move") in
           Printf.sprintf "= rejected pos=%d thread=%d got=%s expected=%s" p (to_int tid) (string_of_ev e) exp))
   | ["CDRAIN"; taker] ->
     (match do_match ses.lvl ses.gen (n_of_string "18446744073709551615") (oid_of_string taker) with
